@@ -59,8 +59,15 @@ pub broadcast axiom fn ax_cmp_v(a: f64, b: f64) ensures #[trigger] a.partial_cmp
 pub broadcast axiom fn ax_eq_v(a: f64, b: f64) ensures #[trigger] a.eq_spec(&b) == feq(a, b);
 pub broadcast axiom fn ax_cmp_r(a: &f64, b: &f64) ensures #[trigger] a.partial_cmp_spec(&b) == fcmp(*a, *b);
 pub broadcast axiom fn ax_eq_r(a: &f64, b: &f64) ensures #[trigger] a.eq_spec(&b) == feq(*a, *b);
+// IEEE facts about comparison that do not depend on the operands' values (discharged for ALL pairs of
+// f64 by the loop-free Kani harness `ieee_cmp_flip`): a < b  <=>  b > a, equality is symmetric, an
+// unordered pair is unordered both ways; == agrees with partial_cmp.
 pub axiom fn ax_obeys()
     ensures
+        forall|a: f64, b: f64| (#[trigger] fcmp(a, b) == Some(core::cmp::Ordering::Less)) == (fcmp(b, a) == Some(core::cmp::Ordering::Greater)),
+        forall|a: f64, b: f64| (#[trigger] fcmp(a, b) == Some(core::cmp::Ordering::Equal)) == (fcmp(b, a) == Some(core::cmp::Ordering::Equal)),
+        forall|a: f64, b: f64| (#[trigger] fcmp(a, b) is None) == (fcmp(b, a) is None),
+        forall|a: f64, b: f64| #[trigger] feq(a, b) == (fcmp(a, b) == Some(core::cmp::Ordering::Equal)),
         <f64 as AddSpec<f64>>::obeys_add_spec(),
         <f64 as AddSpec<&f64>>::obeys_add_spec(),
         <&f64 as AddSpec<f64>>::obeys_add_spec(),
@@ -159,6 +166,35 @@ pub fn __as_f64<T: ToF64>(x: T) -> (r: f64) ensures r == x.to_f64_spec() { x.__t
 // R13: identity on f64 (see rule R13 of the extractor)
 pub fn __idf(x: f64) -> (r: f64) ensures r == x { x }
 
+// ---- prelude fragment: ideal.rs ----
+// Floating point, layer 2 ("idealised real" mode of DESIGN.md 3.2): machine arithmetic treated as
+// mathematical.  rv maps a float to the real it denotes; rounding, overflow, NaN and signed zero are
+// ignored.  Used only where the property is a statement of real arithmetic.
+pub uninterp spec fn rv(x: f64) -> real;
+pub broadcast axiom fn ax_rv_add(a: f64, b: f64) ensures rv(#[trigger] fadd(a, b)) == rv(a) + rv(b);
+pub broadcast axiom fn ax_rv_sub(a: f64, b: f64) ensures rv(#[trigger] fsub(a, b)) == rv(a) - rv(b);
+pub broadcast axiom fn ax_rv_mul(a: f64, b: f64) ensures rv(#[trigger] fmul(a, b)) == rv(a) * rv(b);
+pub broadcast axiom fn ax_rv_div(a: f64, b: f64) ensures rv(b) != 0real ==> rv(#[trigger] fdiv(a, b)) == rv(a) / rv(b);
+pub broadcast axiom fn ax_rv_neg(a: f64) ensures rv(#[trigger] fneg(a)) == 0real - rv(a);
+pub broadcast axiom fn ax_rv_cmp(a: f64, b: f64)
+    ensures #[trigger] fcmp(a, b) == (if rv(a) < rv(b) { Some(core::cmp::Ordering::Less) }
+        else if rv(a) == rv(b) { Some(core::cmp::Ordering::Equal) } else { Some(core::cmp::Ordering::Greater) });
+pub broadcast axiom fn ax_rv_eq(a: f64, b: f64) ensures #[trigger] feq(a, b) == (rv(a) == rv(b));
+pub broadcast axiom fn ax_rv_max(a: f64, b: f64) ensures rv(#[trigger] fmaxf(a, b)) == (if rv(a) >= rv(b) { rv(a) } else { rv(b) });
+pub broadcast axiom fn ax_rv_min(a: f64, b: f64) ensures rv(#[trigger] fminf(a, b)) == (if rv(a) <= rv(b) { rv(a) } else { rv(b) });
+// (idealised) powf denotes a function of the real values of its arguments
+pub uninterp spec fn rpow(x: real, y: real) -> real;
+pub broadcast axiom fn ax_rv_powf(a: f64, b: f64) ensures rv(#[trigger] fpowf(a, b)) == rpow(rv(a), rv(b));
+pub axiom fn ax_rv_lits()
+    ensures rv(0.0f64) == 0real, rv(1.0f64) == 1real, rv(2.0f64) == 2real, rv(0.5f64) * 2real == 1real;
+pub broadcast group ideal {
+    ax_rv_add, ax_rv_sub, ax_rv_mul, ax_rv_div, ax_rv_neg, ax_rv_cmp, ax_rv_eq, ax_rv_max, ax_rv_min, ax_rv_powf
+}
+// (idealised) integer-to-float casts are exact
+pub broadcast axiom fn ax_rv_u64(n: u64) ensures rv(#[trigger] u64_to_f64(n)) == n as real;
+pub broadcast axiom fn ax_rv_usize(n: usize) ensures rv(#[trigger] usize_to_f64(n)) == n as real;
+pub broadcast group ideal_casts { ax_rv_u64, ax_rv_usize }
+
 use vstd::std_specs::iter::{zip_iter_snd, zip_iter_fst};
 
 // ---- extracted from src/lib.rs: enum PlayerNum ----
@@ -221,20 +257,28 @@ pub trait Add {
 }
 // counterfactual weight of the acting player's regrets: opponent reach x chance reach, negated for
 // player two (payoffs are player one's)
-pub open spec fn mult_spec(num: PlayerNum, p_chance: f64, p_player: [f64; 2]) -> f64 {
-    match num { PlayerNum::One => fmul(p_chance, p_player[1]), PlayerNum::Two => fmul(fneg(p_player[0]), p_chance) }
+pub open spec fn mult_spec(num: PlayerNum, p_chance: f64, p_player: [f64; 2]) -> real {
+    match num { PlayerNum::One => rv(p_chance) * rv(p_player[1]), PlayerNum::Two => 0real - rv(p_player[0]) * rv(p_chance) }
 }
 // reach vector handed to the continuation of action a: only the acting player's entry is multiplied by sigma_a
-pub open spec fn pnext_spec(num: PlayerNum, p_player: [f64; 2], prob: f64) -> [f64; 2] {
-    match num { PlayerNum::One => [fmul(p_player[0], prob), p_player[1]], PlayerNum::Two => [p_player[0], fmul(p_player[1], prob)] }
+pub open spec fn pnext_ok(num: PlayerNum, p_player: [f64; 2], prob: f64, p_next: [f64; 2]) -> bool {
+    match num {
+        PlayerNum::One => rv(p_next[0]) == rv(p_player[0]) * rv(prob) && p_next[1] == p_player[1],
+        PlayerNum::Two => p_next[0] == p_player[0] && rv(p_next[1]) == rv(p_player[1]) * rv(prob),
+    }
 }
-pub open spec fn exp_one(strat: Seq<f64>, us: Seq<f64>, k: int) -> f64 decreases k {
-    if k <= 0 { 0.0f64 } else { fadd(exp_one(strat, us, k - 1), fmul(strat[k - 1], us[k - 1])) }
+// the continuation was called on `node` with a reach vector in which ONLY the acting player's entry is
+// multiplied by the action's probability, and returned u
+pub open spec fn called_ok<F: Fn(&Node, [f64; 2]) -> f64>(rec: F, node: Node, num: PlayerNum, p_player: [f64; 2], prob: f64, u: f64) -> bool {
+    exists|pn: [f64; 2]| pnext_ok(num, p_player, prob, pn) && #[trigger] rec.ensures((&node, pn), u)
 }
-pub open spec fn exp_cf(strat: Seq<f64>, us: Seq<f64>, mult: f64, k: int) -> f64 decreases k {
-    if k <= 0 { 0.0f64 } else { fadd(exp_cf(strat, us, mult, k - 1), fmul(fmul(us[k - 1], mult), strat[k - 1])) }
+pub open spec fn exp_one(strat: Seq<f64>, us: Seq<f64>, k: int) -> real decreases k {
+    if k <= 0 { 0real } else { exp_one(strat, us, k - 1) + rv(strat[k - 1]) * rv(us[k - 1]) }
 }
-pub proof fn lemma_exp_prefix(st: Seq<f64>, a: Seq<f64>, b: Seq<f64>, m: f64, k: int)
+pub open spec fn exp_cf(strat: Seq<f64>, us: Seq<f64>, mult: real, k: int) -> real decreases k {
+    if k <= 0 { 0real } else { exp_cf(strat, us, mult, k - 1) + rv(us[k - 1]) * mult * rv(strat[k - 1]) }
+}
+pub proof fn lemma_exp_prefix(st: Seq<f64>, a: Seq<f64>, b: Seq<f64>, m: real, k: int)
     requires 0 <= k <= a.len(), k <= b.len(), forall|i: int| 0 <= i < k ==> a[i] == b[i],
     ensures exp_one(st, a, k) == exp_one(st, b, k), exp_cf(st, a, m, k) == exp_cf(st, b, m, k),
     decreases k
@@ -245,10 +289,10 @@ pub proof fn lemma_exp_prefix(st: Seq<f64>, a: Seq<f64>, b: Seq<f64>, m: f64, k:
 // ---- extracted from src/solve/vanilla.rs: impl Add for &mut f64 ----
 impl Add for &mut f64 {
     #[verifier::prophetic]
-    open spec fn added(self, other: f64) -> bool { *final(self) == fadd(*self, other) }
+    open spec fn added(self, other: f64) -> bool { rv(*final(self)) == rv(*self) + rv(other) }
 fn add(self, other: f64) {
-broadcast use fl;
-proof { ax_obeys(); }
+broadcast use fl; broadcast use ideal;
+proof { ax_obeys(); ax_rv_lits(); }
 
         *self = *self + ( other);
     }
@@ -268,16 +312,16 @@ pub fn recurse_player<F: Fn(&Node, [f64; 2]) -> f64>(
         exists|us: Seq<f64>| us.len() == player.actions@.len()
             // u_a is what the continuation returned for action a, called with the reach vector in which
             // ONLY the acting player's entry is multiplied by sigma_a
-            && (forall|a: int| 0 <= a < us.len() ==> rec.ensures((&#[trigger] player.actions@[a], pnext_spec(player.num, p_player, strat@[a])), us[a]))
+            && (forall|a: int| 0 <= a < us.len() ==> #[trigger] called_ok(rec, player.actions@[a], player.num, p_player, strat@[a], us[a]))
             // every action's cumulative regret receives u_a times the counterfactual weight
-            && (forall|a: int| 0 <= a < us.len() ==> #[trigger] final(cum_regret)@[a] == fadd(old(cum_regret)@[a], fmul(us[a], mult_spec(player.num, p_chance, p_player))))
+            && (forall|a: int| 0 <= a < us.len() ==> rv(#[trigger] final(cum_regret)@[a]) == rv(old(cum_regret)@[a]) + rv(us[a]) * mult_spec(player.num, p_chance, p_player))
             // returned: (sum_a sigma_a u_a, sum_a u_a mult sigma_a)
-            && out.0 == exp_one(strat@, us, us.len() as int)
-            && out.1 == exp_cf(strat@, us, mult_spec(player.num, p_chance, p_player), us.len() as int), // @ob C08.V.recurse_player.update
+            && rv(out.0) == exp_one(strat@, us, us.len() as int)
+            && rv(out.1) == exp_cf(strat@, us, mult_spec(player.num, p_chance, p_player), us.len() as int), // @ob C08.V.recurse_player.update
 {
-broadcast use fl;
+broadcast use fl; broadcast use ideal;
 proof {
-    ax_obeys();
+    ax_obeys(); ax_rv_lits();
     assume(player.actions@.len() == strat@.len() && strat@.len() == cum_regret@.len());
     assume(forall|n: &Node, p: [f64; 2]| rec.requires((n, p)));
 }
@@ -294,7 +338,13 @@ let ghost mut us: Seq<f64> = Seq::empty();
 
     let mut expected_one = 0.0;
     let mut expected = 0.0;
-    proof { assert(mult == mult_spec(player.num, p_chance, p_player)); }
+    proof {
+    assert((0real - rv(p_player[0])) * rv(p_chance) == 0real - rv(p_player[0]) * rv(p_chance)) by(nonlinear_arith);
+    assert(rv(p_chance) * (0real - rv(p_player[0])) == 0real - rv(p_player[0]) * rv(p_chance)) by(nonlinear_arith);
+    assert(rv(p_player[1]) * rv(p_chance) == rv(p_chance) * rv(p_player[1])) by(nonlinear_arith);
+    assert(rv(mult) == mult_spec(player.num, p_chance, p_player));
+}
+let ghost ms = mult_spec(player.num, p_chance, p_player);
 for ((next, prob), cum_reg) in it: player
         .actions
         .iter()
@@ -304,21 +354,21 @@ for ((next, prob), cum_reg) in it: player
 invariant
     it.snapshot@.remaining().len() == n, n == acts.len(), n == st.len(), n == c0.len(),
     0 <= it.index@ <= n, us.len() == it.index@,
-    mult == mult_spec(player.num, p_chance, p_player),
+    rv(mult) == ms, ms == mult_spec(player.num, p_chance, p_player),
     zip_iter_snd(it.snapshot@).remaining().len() == n,
     forall|i: int| 0 <= i < n ==> (it.snapshot@.remaining()[i]).1 == #[trigger] zip_iter_snd(it.snapshot@).remaining()[i],
     forall|i: int| 0 <= i < n ==> *((#[trigger] it.snapshot@.remaining()[i]).0).0 == acts[i]
         && *((it.snapshot@.remaining()[i]).0).1 == st[i] && *(it.snapshot@.remaining()[i]).1 == c0[i],
     forall|nd: &Node, p: [f64; 2]| rec.requires((nd, p)),
-    forall|i: int| 0 <= i < it.index@ ==> rec.ensures((&#[trigger] acts[i], pnext_spec(player.num, p_player, st[i])), us[i]),
-    forall|i: int| 0 <= i < it.index@ ==> *final((#[trigger] it.snapshot@.remaining()[i]).1) == fadd(c0[i], fmul(us[i], mult)),
-    expected_one == exp_one(st, us, it.index@ as int),
-    expected == exp_cf(st, us, mult, it.index@ as int),
+    forall|i: int| 0 <= i < it.index@ ==> #[trigger] called_ok(rec, acts[i], player.num, p_player, st[i], us[i]),
+    forall|i: int| 0 <= i < it.index@ ==> rv(*final((#[trigger] it.snapshot@.remaining()[i]).1)) == rv(c0[i]) + rv(us[i]) * ms,
+    rv(expected_one) == exp_one(st, us, it.index@ as int),
+    rv(expected) == exp_cf(st, us, ms, it.index@ as int),
 ensures
-    forall|i: int| 0 <= i < n ==> *final(#[trigger] zip_iter_snd(it.snapshot@).remaining()[i]) == fadd(c0[i], fmul(us[i], mult)),
+    forall|i: int| 0 <= i < n ==> rv(*final(#[trigger] zip_iter_snd(it.snapshot@).remaining()[i])) == rv(c0[i]) + rv(us[i]) * ms,
 {
-broadcast use fl;
-proof { ax_obeys(); }
+broadcast use fl; broadcast use ideal;
+proof { ax_obeys(); ax_rv_lits(); }
 let ghost us0 = us;
 
         let mut p_next = p_player;
@@ -330,17 +380,23 @@ let ghost us0 = us;
         cum_reg.add(util);
     
 proof {
+    assert(rv(util_one) * rv(*prob) == rv(*prob) * rv(util_one)) by(nonlinear_arith);
+    assert(rv(util) * rv(*prob) == rv(*prob) * rv(util)) by(nonlinear_arith);
+    assert(rv(mult) * rv(util_one) == rv(util_one) * rv(mult)) by(nonlinear_arith);
     us = us0.push(util_one);
     assert(forall|i: int| 0 <= i < us0.len() ==> us[i] == us0[i]);
-    lemma_exp_prefix(st, us0, us, mult, us0.len() as int);
-    assert(p_next == pnext_spec(player.num, p_player, *prob));
+    lemma_exp_prefix(st, us0, us, ms, us0.len() as int);
+    assert(pnext_ok(player.num, p_player, *prob, p_next));
+    assert(rec.ensures((next, p_next), util_one));
+    assert(called_ok(rec, *next, player.num, p_player, *prob, util_one));
+    assert(rv(util) * rv(*prob) == rv(util_one) * ms * rv(*prob)) by(nonlinear_arith) requires rv(util) == rv(util_one) * ms;
 }
 }
 proof {
     let w = us;
     assert(w.len() == player.actions@.len() && acts == player.actions@ && st == strat@);
-    assert(forall|a: int| 0 <= a < w.len() ==> rec.ensures((&#[trigger] player.actions@[a], pnext_spec(player.num, p_player, strat@[a])), w[a]));
-    assert(forall|a: int| 0 <= a < w.len() ==> #[trigger] cum_regret@[a] == fadd(c0[a], fmul(w[a], mult)));
+    assert(forall|a: int| 0 <= a < w.len() ==> #[trigger] called_ok(rec, player.actions@[a], player.num, p_player, strat@[a], w[a]));
+    assert(forall|a: int| 0 <= a < w.len() ==> rv(#[trigger] cum_regret@[a]) == rv(c0[a]) + rv(w[a]) * ms);
 }
 
     (expected_one, expected)
@@ -351,7 +407,7 @@ proof {
 pub proof fn __canary_must_fail()
     ensures false, // @ob __canary
 {
-    broadcast use fl; ax_obeys();
+    broadcast use fl; broadcast use ideal; ax_obeys(); ax_rv_lits();
 }
 
 } // verus!
